@@ -17,7 +17,13 @@ type Value interface{}
 type FloatV float64
 
 type StructV struct{ F []Value }
-type ArrayV struct{ E []Value }
+type ArrayV struct {
+	E []Value
+	// epoch != 0: the array was created by a copy-on-write store in that heap
+	// epoch and is referenced only from its owning object, so further stores in
+	// the same epoch may update it in place (big concrete buffers).
+	epoch int
+}
 type TupleV []Value
 
 // Object: a heap cell (root of a value tree). All mutation goes through
